@@ -52,7 +52,7 @@ func genC19(kind string) func(r *core.Rng) any {
 			fmt.Fprintf(&sb, ` width="%s%s" height="%s%s"`, c19Num(vw*scale/conv), unit, c19Num(vh*scale/conv), unit)
 		}
 		fmt.Fprintf(&sb, ` viewBox="%s %s %s %s">`, c19Num(minx), c19Num(miny), c19Num(vw), c19Num(vh))
-		useCSS := kind == "css" || kind == "specificity" || kind == "combinator" || r.Chance(0.25)
+		useCSS := kind == "css" || kind == "specificity" || kind == "combinator" || r.Chance(0.25) || (kind == "properties" && r.Chance(0.4))
 		if useCSS {
 			sb.WriteString("<style>")
 			n := r.IntRange(1, 3)
@@ -77,10 +77,15 @@ func genC19(kind string) func(r *core.Rng) any {
 			}
 			for k := 0; k < n; k++ {
 				sel := core.PickS(r, pool)
+				if kind == "properties" && r.Chance(0.4) {
+					fmt.Fprintf(&sb, "%s{fill-rule:%s}", sel, core.PickS(r, []string{"evenodd", "nonzero"}))
+					continue
+				}
 				fmt.Fprintf(&sb, "%s{%s:%s}", sel, core.PickS(r, []string{"fill", "fill", "stroke"}), core.PickS(r, c19Colors))
 			}
 			sb.WriteString("</style>")
 		}
+		rich := kind == "properties"
 		paint := func(attrs *[]string, style *[]string) {
 			put := func(k, v string) {
 				if r.Chance(0.35) {
@@ -98,6 +103,22 @@ func genC19(kind string) func(r *core.Rng) any {
 				if r.Chance(0.6) {
 					put("stroke-linejoin", "round")
 					put("stroke-linecap", "round")
+				}
+			}
+			if rich {
+				// every value of the property, the initial ones included: an element can set a property
+				// back that an ancestor, a style sheet rule or its own attribute changed
+				if r.Chance(0.4) {
+					put("fill-rule", core.PickS(r, []string{"evenodd", "nonzero", "nonzero"}))
+				}
+				if r.Chance(0.3) {
+					put("stroke-linejoin", core.PickS(r, []string{"miter", "bevel", "round"}))
+				}
+				if r.Chance(0.3) {
+					put("stroke-linecap", core.PickS(r, []string{"butt", "square", "round"}))
+				}
+				if r.Chance(0.2) {
+					put("stroke-miterlimit", core.PickS(r, []string{"1.5", "4", "10"}))
 				}
 			}
 			if useCSS && r.Chance(0.6) {
@@ -151,7 +172,29 @@ func genC19(kind string) func(r *core.Rng) any {
 			cx, cy := minx+vw*r.Range(0.2, 0.8), miny+vh*r.Range(0.2, 0.8)
 			sz := math.Min(vw, vh) * r.Range(0.1, 0.3)
 			tag := core.PickS(r, []string{"rect", "rect", "circle", "ellipse", "line", "polyline", "polygon", "path", "path"})
+			if rich && r.Chance(0.5) {
+				tag = core.PickS(r, []string{"star", "rings"})
+			}
 			switch tag {
+			case "star": // pentagram: the inner pentagon has winding number 2
+				tag = "polygon"
+				var pts []string
+				ph := r.Range(0, 2*math.Pi)
+				for i := 0; i < 5; i++ {
+					a := ph + 2*math.Pi*float64(i*2%5)/5
+					pts = append(pts, c19Num(cx+sz*math.Cos(a))+","+c19Num(cy+sz*math.Sin(a)))
+				}
+				attrs = append(attrs, fmt.Sprintf(`points="%s"`, strings.Join(pts, " ")))
+			case "rings": // two squares in each other, in the same or in opposite directions
+				tag = "path"
+				in := sz * r.Range(0.3, 0.6)
+				d := fmt.Sprintf("M%s %sh%sv%sh%sz", c19Num(cx-sz), c19Num(cy-sz), c19Num(2*sz), c19Num(2*sz), c19Num(-2*sz))
+				if r.Bool() {
+					d += fmt.Sprintf("M%s %sh%sv%sh%sz", c19Num(cx-in), c19Num(cy-in), c19Num(2*in), c19Num(2*in), c19Num(-2*in))
+				} else {
+					d += fmt.Sprintf("M%s %sv%sh%sv%sz", c19Num(cx-in), c19Num(cy-in), c19Num(2*in), c19Num(2*in), c19Num(-2*in))
+				}
+				attrs = append(attrs, fmt.Sprintf(`d="%s"`, d))
 			case "rect":
 				attrs = append(attrs, fmt.Sprintf(`x="%s" y="%s" width="%s" height="%s"`, c19Num(cx-sz), c19Num(cy-sz/2), c19Num(2*sz), c19Num(sz)))
 				if r.Chance(0.25) {
@@ -808,6 +851,7 @@ func init() {
 			"a reference evaluator written from the SVG specification yields the canvas size and the painted primitives; the canvas returned by ParseSVG is replayed to a recording renderer and compared at 100 uniform points plus 25 per contour (fills by exact winding, strokes by exact stroke regions; margin 0.2% of the canvas); stratum roundtrip: the library's own SVG output of C12's drawings",
 		Strata: []core.Stratum{
 			{Name: "documents", Quick: 1200, Thorough: 40000, Gen: genC19("documents")},
+			{Name: "properties", Quick: 600, Thorough: 15000, Gen: genC19("properties"), Note: "fill-rule, line join, line cap and miter limit with every value (the initial ones included) on groups, elements, style attributes and style sheet rules; pentagrams and nested squares"},
 			{Name: "viewbox", Quick: 400, Thorough: 10000, Gen: genC19("viewbox")},
 			{Name: "css", Quick: 400, Thorough: 10000, Gen: genC19("css")},
 			{Name: "roundtrip", Quick: 400, Thorough: 10000, Gen: genC19RoundTrip},
